@@ -152,6 +152,7 @@ theorem contained_joinSlash {cs : List Bytes} (hne : cs ≠ []) (h : GoodComps c
 structure TreeOK (skip : List Bytes) (fs : FS) : Prop where
   inv : Inv fs
   root : fs.get? dotP = some 0
+  rootDir : (fs.ino 0).kind = .dir
   plain : ∀ i, (fs.ino i).kind = .dir ∨ (fs.ino i).kind = .reg
   named : ∀ k i, fs.get? k = some i → (fs.ino i).name = k ∧ i < fs.inodes.length
   kinds : ∀ k i, fs.get? k = some i →
